@@ -440,6 +440,22 @@ func loadAlign(c *Ctx, r *Report, name, traceName string) *alignFn {
 			r.analysed(fname(f))
 		}
 	}
+	// the traceback loop may live in a stage of the trace function that takes the table and its width as they are
+	if tr != nil && len(tr.Params) >= 2 && traceLoopVar(tr) == nil && traceIndexCell(tr) == nil {
+		for _, g := range c.stageFuncs(tr) {
+			if g == tr || len(g.Params) < 2 || (traceLoopVar(g) == nil && traceIndexCell(g) == nil) {
+				continue
+			}
+			for _, call := range staticCallsTo(tr, g) {
+				if len(call.Call.Args) >= 2 && call.Call.Args[0] == ssa.Value(tr.Params[0]) && call.Call.Args[1] == ssa.Value(tr.Params[1]) {
+					tr = g
+				}
+			}
+			if tr == g {
+				break
+			}
+		}
+	}
 	a := &alignFn{entry: entry, es: es, f: f, s: newSymb(f), traceFn: tr}
 	calls := staticCallsTo(f, dec)
 	if len(calls) != 1 || len(calls[0].Call.Args) != 3 {
@@ -544,40 +560,63 @@ func (a *alignFn) getClasses(s *Sym) []string {
 // scoreStores collects (guard, field, value) of every store into blocks[i] or its fields.
 func (a *alignFn) cellStores(c *Ctx) []string {
 	var out []string
-	instrs(a.f, func(in ssa.Instruction) {
-		st, ok := in.(*ssa.Store)
-		if !ok {
-			return
-		}
+	// stores of the function itself and of helpers that were handed a pointer to a cell (setEdge(&blocks[i], …))
+	for _, ss := range symStoresOf(a.f, a.s) {
+		st := ss.st
 		var field string
-		var ia *ssa.IndexAddr
-		switch ad := st.Addr.(type) {
-		case *ssa.IndexAddr:
-			ia, field = ad, "*"
-		case *ssa.FieldAddr:
-			if x, ok := ad.X.(*ssa.IndexAddr); ok {
-				ia, field = x, fmt.Sprintf("f%d", ad.Field)
-			}
+		var idx *Sym
+		ad := ss.addr
+		switch {
+		case ad.Op == "index" && len(ad.Args) == 2 && ad.Args[0].String() == a.blocks.String():
+			idx, field = ad.Args[1], "*"
+		case ad.Op == "field" && len(ad.Args) == 1 && ad.Args[0].Op == "index" && len(ad.Args[0].Args) == 2 && ad.Args[0].Args[0].String() == a.blocks.String():
+			idx, field = ad.Args[0].Args[1], ad.Leaf
+		default:
+			continue
 		}
-		if ia == nil || a.s.expr(ia.X).String() != a.blocks.String() {
-			return
-		}
-		val := a.s.expr(st.Val)
+		val := ss.val
 		if a.zeroGO {
 			val = a.dropGapOpen(val)
 			// a store that only added the (zero) gap-open is a no-op under this abstraction
-			if val.Op == "load" && val.Args[0].String() == a.s.expr(st.Addr).String() {
-				return
+			if val.Op == "load" && val.Args[0].String() == ad.String() {
+				continue
 			}
 		}
 		vs := val.render(a.repl())
 		if val.Op == "load" && val.Args[0].Op == "alloc" {
 			vs = "composite" + compositeConsts(val.Args[0].Val)
 		}
-		out = append(out, fmt.Sprintf("[%s] blocks[%s].%s = %s", guardOf(a.s, st.Block(), a.repl()), a.s.expr(ia.Index).render(a.repl()), field, vs))
-	})
+		guard := guardOf(ss.sy, st.Block(), a.repl())
+		if ss.via != nil {
+			// the helper's own condition on top of the condition of the call
+			guard = joinGuards(guardOf(a.s, ss.via.Block(), a.repl()), guard)
+		}
+		out = append(out, fmt.Sprintf("[%s] blocks[%s].%s = %s", guard, idx.render(a.repl()), field, vs))
+	}
 	sort.Strings(out)
 	return out
+}
+
+// joinGuards conjoins two rendered guards (sorted literal lists stay sorted literal lists).
+func joinGuards(a, b string) string {
+	if a == "" {
+		return b
+	}
+	if b == "" {
+		return a
+	}
+	if strings.HasPrefix(a, "bool[") || strings.HasPrefix(b, "bool[") {
+		return a + " && " + b
+	}
+	parts := append(strings.Split(a, " && "), strings.Split(b, " && ")...)
+	sort.Strings(parts)
+	var out []string
+	for i, p := range parts {
+		if i == 0 || parts[i-1] != p {
+			out = append(out, p)
+		}
+	}
+	return strings.Join(out, " && ")
 }
 
 // compositeConsts renders the constant field stores of a local composite literal.
@@ -1084,34 +1123,49 @@ func (a *alignFn) edgeRule(c *Ctx, r *Report) {
 	del, _ := stepConst(c, "Deletion")
 	ins, _ := stepConst(c, "Insertion")
 	n := 0
-	for _, b := range a.f.Blocks {
-		var label int64 = -1
-		var classes []string
-		var pos token.Pos
-		for _, in := range b.Instrs {
-			st, ok := in.(*ssa.Store)
-			if !ok {
-				continue
-			}
-			fa, ok := st.Addr.(*ssa.FieldAddr)
-			if !ok {
-				continue
-			}
-			if _, ok := fa.X.(*ssa.IndexAddr); !ok {
-				continue
-			}
-			if fa.Field == 1 {
-				if k, ok := cInt(constVal(st.Val)); ok {
-					label, pos = k, st.Pos()
-				}
-			} else if fa.Field == 0 {
-				for _, cl := range a.getClasses(a.s.expr(st.Val)) {
-					if cl != "gap-open" {
-						classes = append(classes, cl)
+	// stores grouped by the block they are made in, or by the call of the helper that makes them
+	type grp struct {
+		label   int64
+		classes []string
+		pos     token.Pos
+	}
+	groups := map[any]*grp{}
+	var order []any
+	for _, ss := range symStoresOf(a.f, a.s) {
+		ad := ss.addr
+		if ad.Op != "field" || len(ad.Args) != 1 || ad.Args[0].Op != "index" {
+			continue
+		}
+		var key any = ss.st.Block()
+		if ss.via != nil {
+			key = ss.via
+		}
+		g := groups[key]
+		if g == nil {
+			g = &grp{label: -1}
+			groups[key] = g
+			order = append(order, key)
+		}
+		switch ad.Leaf {
+		case "f1":
+			if ss.val.Op == "const" {
+				if k, ok := cInt(constVal(ss.val.Val)); ok {
+					g.label, g.pos = k, ss.st.Pos()
+					if ss.via != nil {
+						g.pos = ss.via.Pos()
 					}
 				}
 			}
+		case "f0":
+			for _, cl := range a.getClasses(ss.val) {
+				if cl != "gap-open" {
+					g.classes = append(g.classes, cl)
+				}
+			}
 		}
+	}
+	for _, key := range order {
+		label, classes, pos := groups[key].label, groups[key].classes, groups[key].pos
 		if label < 0 {
 			continue
 		}
